@@ -50,7 +50,7 @@ def tasks(tier, seed):
         Tq = (6 if d2 else 8) if tier == "quick" else (8 if d2 else 10)
         ts.append({"kind": "algo", "label": "full/" + lab, "cfg": cfg, "mode": "full", "T": Tq,
                    "R": list(configs.R3), "rng_k": 1 if d2 else None, "cost": 5})
-        for base in (("peak", "negpeak") if tier == "quick" else ("peak", "negpeak", "alt", "zero", "twopeak")):
+        for base in (("peak", "negpeak", "off12") if tier == "quick" else ("peak", "negpeak", "off12", "alt", "zero", "twopeak")):
             ts.append({"kind": "algo", "label": "dev/%s/%s" % (lab, base), "cfg": cfg, "mode": "dev", "T": 100,
                        "R": list(configs.R3), "base": base, "k": 1 if tier == "quick" else 2,
                        "max_exec": 2000 if tier == "quick" else 30000, "cost": 8, "query": tier == "thorough"})
